@@ -261,10 +261,11 @@ class Builtin:
 class CallbackVal:
     """Opaque callback with a ghost effect (a Func taking (ghost, *args))."""
 
-    def __init__(self, name, effect=None, returns=None):
+    def __init__(self, name, effect=None, returns=None, raises=()):
         self.name = name
         self.effect = effect
         self.returns = returns
+        self.raises = tuple(raises)
 
     def __repr__(self):
         return f'Callback({self.name})'
@@ -293,3 +294,15 @@ def is_sym(v):
 
 def is_concrete_int(v):
     return isinstance(v, int) and not isinstance(v, bool) or isinstance(v, bool)
+
+
+class LazyVal:
+    """a OneOf field whose alternative is chosen on first read"""
+
+    def __init__(self, options, hint, lid):
+        self.options = options
+        self.hint = hint
+        self.lid = lid
+
+    def __repr__(self):
+        return f'Lazy({self.hint})'
